@@ -12,7 +12,7 @@ import more_itertools
 from cirbo.core.boolean_function import RawTruthTableModel
 from cirbo.core.circuit import Circuit
 from cirbo.core.circuit.exceptions import CircuitError, CircuitValidationError
-from cirbo.core.circuit.gate import Label
+from cirbo.core.circuit.gate import Label, NOT
 from cirbo.core.circuit.operators import GateState, Undefined
 from cirbo.core.circuit.validation import check_circuit_has_no_cycles
 from cirbo.core.logic import DontCare
@@ -607,6 +607,12 @@ def minimize_subcircuits(
                         output_labels_mapping[output] = user
                         new_subcircuit.mark_as_output(user)
                         break
+                else:
+                    # The synthesised circuit has no negation of `new_gate` yet.
+                    not_label: Label = f"not_{new_gate}_" + uuid.uuid4().hex
+                    new_subcircuit.emplace_gate(not_label, NOT, (new_gate,))
+                    output_labels_mapping[output] = not_label
+                    new_subcircuit.mark_as_output(not_label)
 
         # Changing initial circuit
         new_circuit: Circuit = copy.deepcopy(circuit)
